@@ -198,6 +198,8 @@ def geo_reductions(env):
         env.eq(f"{tag}: 'mean' is the mean over the broadcast result", ls.geodesic_loss(a, b, reduction='mean'), none.mean())
         env.eq(f"{tag}: 'sum' is the sum over the broadcast result", ls.geodesic_loss(a, b, reduction='sum'), none.sum())
         env.eq(f"{tag}: the module form (default reduction) is the mean", ls.GeodesicLoss()(a, b), none.mean())
+        env.eq(f"{tag}: GeodesicLoss('sum') - the documented argument given positionally - is the sum", ls.GeodesicLoss('sum')(a, b), none.sum())
+        env.eq(f"{tag}: GeodesicLoss('none') is the batched result", ls.GeodesicLoss('none')(a, b), none)
 
 
 @obligation('C19.error_statistics', functions=[f'{APE}:compute_error', f'{APE}:StampedSE3.__init__'], max_paths=64, timeout=300)
